@@ -70,7 +70,7 @@ def readcodenumpymemmap(numtype, shape, endianness, filepath='arrayvalues.bin',
     typedescr = f"{endianness_numpy[endianness]}{typedescr_numpy[numtype]}"
     ct = "import numpy as np\n"
     ct += f"{varname} = np.memmap('{filepath}', dtype='{typedescr}', " \
-          f"shape={shape}, order='C')\n"
+          f"mode='r', shape={shape}, order='C')\n"
     return ct
 
 
